@@ -46,10 +46,10 @@ def run(ctx):
     names = sched.op_names(weights=w)
     strat = c01.case_strategy(4 if ctx.tier == "quick" else 8, names, max_stmts=10, config_pct=100, calls=True)
     from ..common import run_systematic
-    from ..gen.templates import single_step_cases
+    from ..gen.templates import distinct_step_cases
 
     val = {"fill": 1, "layout": 2, "cfg": [3, 5, 1, 2, 4], "pick": 7}
     cfg_ops = ["bind_config", "write_config", "delete_config", "call_eqv"]
     quick = ctx.tier == "quick"
-    run_systematic(ctx, single_step_cases(cfg_ops, val, params=(0, 1, 2) if quick else (0, 1, 2, 5, 7, 11), sites=8, variants=((0, 0), (1, 1), (2, 5), (3, 7), (4, 2), (5, 3))), guarded(ctx, check_case), keep_one_in=2 if quick else 1, label="template-single-steps")
+    run_systematic(ctx, distinct_step_cases(ctx.shard, ctx.nshards, cfg_ops, val, params=(0, 1, 2) if quick else (0, 1, 2, 5, 7, 11), grid=(10, 8, 8), cap=200), guarded(ctx, check_case), keep_one_in=1, label="template-single-steps", presharded=True)
     run_cases(ctx, strat, guarded(ctx, check_case), ctx.budget(1600, 60000))
